@@ -212,7 +212,31 @@ func init() {
 				n    int64
 				at   func(int64) float64
 			}
-			for _, f := range []ff{{dyn.Float32, dyn.Float32, 2 * f32LatM, f32Lattice}, {dyn.Float32, dyn.Float64, 2 * f32LatM, f32Lattice},
+			// float64 values around the points where narrowing to float32 changes its behaviour: every power of
+			// two from the smallest denormal to beyond the largest float32, the largest float32 itself and
+			// the values just below 2^k (all-ones mantissa in float32), each with its float64 neighbours,
+			// the rounding ties half a float32 step away and the neighbours of those ties; both signs
+			var edge []float64
+			for e := -151; e <= 129; e++ {
+				p := math.Ldexp(1, e)
+				ulp32 := math.Ldexp(1, e-23)
+				if e < -126 {
+					ulp32 = math.Ldexp(1, -149)
+				}
+				for _, b := range []float64{p, p - ulp32/2, p - ulp32/4, p + ulp32/2, p + ulp32, p + 3*ulp32/2} {
+					for _, x := range []float64{b, math.Nextafter(b, math.Inf(1)), math.Nextafter(b, math.Inf(-1))} {
+						edge = append(edge, x, -x)
+					}
+				}
+			}
+			for _, b := range []float64{math.MaxFloat32, math.MaxFloat32 + math.Ldexp(1, 102), math.MaxFloat32 + math.Ldexp(1, 103), math.MaxFloat32 + math.Ldexp(1, 104), math.MaxFloat64} {
+				for _, x := range []float64{b, math.Nextafter(b, math.Inf(1)), math.Nextafter(b, math.Inf(-1))} {
+					edge = append(edge, x, -x)
+				}
+			}
+			edgeAt := func(i int64) float64 { return edge[i] }
+			for _, f := range []ff{{dyn.Float64, dyn.Float32, int64(len(edge)), edgeAt}, {dyn.Float64, dyn.Float64, int64(len(edge)), edgeAt},
+				{dyn.Float32, dyn.Float32, 2 * f32LatM, f32Lattice}, {dyn.Float32, dyn.Float64, 2 * f32LatM, f32Lattice},
 				{dyn.Float64, dyn.Float64, 2 * f64LatM, f64Lattice}, {dyn.Float64, dyn.Float32, 2 * f64LatM, f64Lattice}} {
 				f := f
 				c.ParallelFor(16, func(sh int) {
